@@ -377,7 +377,8 @@ func c01E2E(c *lab.Ctx) {
 	rng := c.Rand("e2e")
 	// ------------------------------------------------------------------ HTTP
 	uris := c01URIs(rng)
-	methods := []string{"GET", "POST", "PUT", "DELETE", "HEAD", "OPTIONS"}
+	// the common methods, extension methods (WebDAV, cache purge) and a made-up token: a method is any token (RFC 9110 9.1)
+	methods := []string{"GET", "POST", "PUT", "DELETE", "HEAD", "OPTIONS", "PATCH", "PROPFIND", "MKCOL", "REPORT", "PURGE", "VERIFX"}
 	bodySizes := []int{0, 1, 255, 256, 65535, 65536, 1 << 20}
 	var cases []*c01Case
 	n := 0
@@ -387,11 +388,16 @@ func c01E2E(c *lab.Ctx) {
 			for r := 0; r < reps; r++ {
 				cs := &c01Case{pair: p.name, uri: u}
 				cs.method = methods[(ui+r+n)%len(methods)]
+				if strings.HasPrefix(p.name, "a") && (ui+r+n)%len(methods) >= 7 {
+					// a protocol-DETECTING listener recognises HTTP/1 by the methods it knows; a request with an extension method
+					// is not detected as HTTP at all, which is a matter of detection, not of forwarding
+					cs.method = methods[(ui+r+n)%7]
+				}
 				if r == 0 {
 					cs.method = []string{"GET", "POST"}[ui%2]
 				}
 				bs := 0
-				if cs.method == "POST" || cs.method == "PUT" || (cs.method == "DELETE" && rng.Bool()) {
+				if cs.method == "POST" || cs.method == "PUT" || cs.method == "PATCH" || cs.method == "PROPFIND" || cs.method == "REPORT" || (cs.method == "DELETE" && rng.Bool()) {
 					bs = bodySizes[rng.Intn(len(bodySizes))]
 					if bs == 1<<20 && rng.Intn(3) != 0 {
 						bs = rng.Intn(5000)
